@@ -47,6 +47,7 @@ type c02world struct {
 	w    *leanhelix.WorkerLoop
 	comm map[uint64][]interfaces.CommitteeMember
 	desc string
+	mem  *spi.Membership
 }
 
 func (c *c02) world() *c02world {
@@ -113,6 +114,7 @@ func (c *c02) world() *c02world {
 		BlockUtils: &spi.BlockUtils{Node: c.ids[0], Log: &spi.Log{}},
 		KeyManager: c.keys.Signer(c.ids[0]),
 	}
+	wd.mem = cfg.Membership.(*spi.Membership)
 	wd.w = leanhelix.NewWorkerLoop(st, cfg, logger.NewLhLogger(cfg, st), nil, nil, nil)
 	return wd
 }
@@ -317,6 +319,29 @@ func CheckC02(run *harness.Run) int {
 			s := base(0)
 			s.Signers = c.pickSigners(ref.NewCommittee(wd.comm[h-1]), 0)
 			c.judge(wd, "signers are a quorum of the previous height's committee", blk, c.build(s, prev), prevBlk, prev, "prev-height-committee")
+		}
+		// the committee lookup fails once (contract unavailable / request cancelled): that validation must fail, and the next
+		// one — of a certificate signed by the previous height's committee, right after a genuine certificate of the previous
+		// height was validated — must be judged against this height's committee
+		if wi%4 == 0 {
+			pm := ref.NewCommittee(wd.comm[h-1])
+			prevPrevBlk := &spi.Blk{H: h - 2, Body: "prev-prev"}
+			if h >= 3 && pm.N() > 0 {
+				gen := c.build(&proofSpec{Type: protocol.LEAN_HELIX_COMMIT, Inst: inst, H: h - 1, Hash: spi.HashOf(prevBlk), Signers: c.pickSigners(pm, 4), SigMode: make([]int, 16)}, nil)
+				c.call(wd, prevBlk, gen, prevPrevBlk, nil, false) // step 1: the previous height's genuine certificate (fills whatever is cached)
+			}
+			wd.mem.OnProofRequest = func(ctx context.Context, hh uint64) error { return fmt.Errorf("committee contract unavailable") }
+			err, p := c.call(wd, blk, c.build(base(0), prev), prevBlk, prev, false)
+			wd.mem.OnProofRequest = nil
+			c.evals++
+			if p != nil {
+				c.bad("validate-block-consensus-panics", fmt.Sprintf("committee lookup failed: %v", p), map[string]interface{}{"committee": wd.desc})
+			} else if err == nil {
+				c.bad("accepted-although-the-committee-lookup-failed", "ValidateBlockConsensus returned nil although RequestCommitteeForBlockProof returned an error: nothing was checked against a committee", map[string]interface{}{"committee": wd.desc})
+			}
+			s := base(0)
+			s.Signers = c.pickSigners(pm, 0)
+			c.judge(wd, "after a failed committee lookup: signers are a quorum of the previous height's committee", blk, c.build(s, prev), prevBlk, prev, "after-failed-lookup")
 		}
 		// field mutations of a quorum certificate
 		for k := 0; k < 14; k++ {
